@@ -119,8 +119,8 @@ def check(F, rep, tier):
             # what the comparator calls "numeric text" is: non-empty and ASCII digits only
             for g_ in cmp_scope:
                 if g_.kind == "closure" or g_.d.get("ret") != "bool" or g_.path == h.path: continue
-                preds = [_ps.closure_pred_name(F, g_, t[2][1]) for bi, t in g_.calls() if (mir.callee(t) or "").endswith("Iterator::all") and len(t[2]) > 1]
-                anyp = [1 for bi, t in g_.calls() if (mir.callee(t) or "").endswith("Iterator::any")]
+                preds = [_ps.closure_pred_name(F, g_, t[2][1]) for bi, t in g_.calls() if (mir.callee(t) or "").endswith("::all") and len(t[2]) > 1]
+                anyp = [1 for bi, t in g_.calls() if (mir.callee(t) or "").endswith("::any")]
                 empt = any((mir.callee(t) or "").endswith("::is_empty") for bi, t in g_.calls())
                 if preds == ["is_ascii_digit"] and not anyp and empt: rep.ok("R11.7", "%s = !is_empty && all(is_ascii_digit)" % g_.path.rsplit("::", 1)[-1], nontrivial_key="numtext" + g_.path)
                 elif preds or anyp: rep.bad("R11.7", "numeric-text-test:" + g_.path.rsplit("::", 1)[-1], "the comparator's test for a numeric text part is not `non-empty and all ASCII digits` (all-predicates %s, any-predicates %d, is_empty %s)" % (preds, len(anyp), empt), g_.where())
